@@ -7013,7 +7013,12 @@ class Device(utils.CompositeEventEmitter):
             connection.peer_resolvable_address = connection.peer_address
             connection.peer_address = identity_address
         connection.sc = sc
-        connection.authenticated = True
+        # The link is as authenticated as the keys this pairing produced
+        connection.authenticated = any(
+            key.authenticated
+            for key in (keys.ltk, keys.ltk_central, keys.ltk_peripheral, keys.link_key)
+            if key is not None
+        )
         connection.emit(connection.EVENT_PAIRING, keys)
 
     def on_pairing_failure(self, connection: Connection, reason: int) -> None:
